@@ -21,7 +21,7 @@ def run(d):
         return name,res,None
     finally:
         shutil.rmtree(tmp,ignore_errors=True)
-dirs=[d for d in sorted(glob.glob('/verif/seeded/*')) if os.path.isdir(d) and (not only or os.path.basename(d) in only)]
+dirs=[d for d in sorted(glob.glob('/verif/seeded/*')) if os.path.isdir(d) and os.path.exists(os.path.join(d,'patch.diff')) and (not only or os.path.basename(d) in only)]
 base=subprocess.run(['/verif/bin/hmscheck','-all','-repo','/repo','-verif','/verif'],capture_output=True,text=True,env=ENV)
 basej=json.loads(base.stdout)
 basekeys={(p,o['rule'],o['key']) for p,l in basej.items() for o in l}
